@@ -454,19 +454,21 @@ func extractTagTokensFromComment(commentText string, baseLine, baseCol uint32) [
 			continue
 		}
 
-		name := strings.TrimSpace(trimmed[:colonIdx])
+		// as in the parser: the name is the word the colon is attached to
+		wordStart := strings.LastIndexAny(trimmed[:colonIdx], " \t") + 1
+		name := trimmed[wordStart:colonIdx]
 		if name == "" || !isValidTagName(name) {
 			continue
 		}
 
-		// the name opens the piece, after its leading blanks
-		tagStart := partStart + len(part) - len(strings.TrimLeftFunc(part, unicode.IsSpace))
+		// the piece's leading blanks, then the text before the name
+		tagStart := partStart + len(part) - len(strings.TrimLeftFunc(part, unicode.IsSpace)) + wordStart
 
 		// Tag name with colon: "name:"
 		tokens = append(tokens, semanticToken{
 			line:      baseLine,
 			col:       colAt(tagStart),
-			length:    uint32(lsputil.UTF16Len(trimmed[:colonIdx]) + 1),
+			length:    uint32(lsputil.UTF16Len(name) + 1),
 			tokenType: TokenTypeTag,
 			modifiers: 0,
 		})
@@ -476,7 +478,7 @@ func extractTagTokensFromComment(commentText string, baseLine, baseCol uint32) [
 			value := strings.TrimSpace(trimmed[colonIdx+1:])
 			if value != "" {
 				// Find where the value starts in the original text
-				tagNameEnd := tagStart + colonIdx + 1
+				tagNameEnd := tagStart + len(name) + 1
 				valueStart := strings.Index(commentText[tagNameEnd:partStart+len(part)], value)
 				if valueStart != -1 {
 					tokens = append(tokens, semanticToken{
